@@ -1,9 +1,57 @@
-(** Property C10 - untrusted model files: error, never panic / runaway allocation. Theorems only. *)
+(** Property C10 - untrusted model files: decoding ANY byte string ends with a decoded model or an error; it never
+    panics, terminates, and allocates memory in proportion to the input.  Theorems only (proofs in Total.v).
+
+    [decode bytes maxArr] models ggml.Decode(bytes.NewReader(bytes), maxArr) of /repo with
+    fixes/C10-decoder-guards.patch applied: every Go operation that can panic (slice expression, make, Truncate,
+    integer division) is a model primitive returning [RPanic] when Go would panic, every loop runs on fuel, and
+    every allocation request is added to a meter. *)
 From Coq Require Import List NArith ZArith Bool.
-From V Require Import Common.Bytes Gguf.Model.
+From V Require Import Common.Bytes Gguf.Model Gguf.Total.
 Import ListNotations.
 Open Scope N_scope.
 
-Theorem C10_empty_is_eof : forall maxArr, decode [] maxArr = DErr EEof base_alloc.
-Proof. intros; reflexivity. Qed.
-Print Assumptions C10_empty_is_eof.
+(** no panic, for every byte string and every maxArraySize (negative = collect everything, 0 = default 1024);
+    and termination: the loops of the decoder run on fuel [length of the remaining input + 1] and never exhaust it
+    ([EFuel] is the model's "did not terminate") *)
+Theorem C10_decode_total : forall (bytes : list N) (maxArr : Z),
+  match decode bytes maxArr with
+  | DOk _ _ => True
+  | DErr e _ => e <> EFuel
+  | DPanic _ _ => False
+  end.
+Proof. exact decode_total. Qed.
+Print Assumptions C10_decode_total.
+
+Corollary C10_decode_ok_or_error : forall bytes maxArr,
+  (exists d al, decode bytes maxArr = DOk d al) \/ (exists e al, decode bytes maxArr = DErr e al /\ e <> EFuel).
+Proof.
+  intros bytes maxArr. pose proof (decode_total bytes maxArr) as H.
+  destruct (decode bytes maxArr) as [d al | e al | p al].
+  - left. eauto.
+  - right. eauto.
+  - destruct H.
+Qed.
+Print Assumptions C10_decode_ok_or_error.
+
+(** allocation is linear in the input with explicit constants: at most 256 bytes per input byte plus 78368
+    (65536 of fixed buffers + 12832 for the one bounded pre-allocation that can precede a failing read), whatever
+    lengths and counts the file declares and whatever maxArraySize is - including "collect all arrays" *)
+Theorem C10_alloc_linear : forall (bytes : list N) (maxArr : Z),
+  d_alloc (decode bytes maxArr) <= 256 * N.of_nat (length bytes) + 78368.
+Proof. exact decode_alloc_linear. Qed.
+Print Assumptions C10_alloc_linear.
+
+(** non-vacuity: the three outcomes exist, and a file declaring a 2^40-element array / a 2^63 string length /
+    alignment 0 is an error with a small meter *)
+Definition tiny_ok : list N := [71;71;85;70; 3;0;0;0; 0;0;0;0;0;0;0;0; 0;0;0;0;0;0;0;0].
+Example C10_ex_ok : exists d al, decode tiny_ok 0 = DOk d al /\ d_end d = 24%Z.
+Proof. vm_compute. eauto. Qed.
+
+Definition huge_array : list N :=
+  [71;71;85;70; 3;0;0;0; 0;0;0;0;0;0;0;0; 1;0;0;0;0;0;0;0;  1;0;0;0;0;0;0;0; 97;  9;0;0;0; 4;0;0;0; 0;0;0;0;0;1;0;0].
+Example C10_ex_huge_array : decode huge_array (-1) = DErr EEof (65536 + 1 + 32 + 16 * 1024).
+Proof. vm_compute. reflexivity. Qed.
+
+Definition neg_string : list N := [71;71;85;70; 3;0;0;0; 0;0;0;0;0;0;0;0; 1;0;0;0;0;0;0;0;  255;255;255;255;255;255;255;255].
+Example C10_ex_neg_string : decode neg_string 0 = DErr ELen 65536.
+Proof. vm_compute. reflexivity. Qed.
